@@ -12,7 +12,11 @@ Driver of C03 (Tiny v2). Requests:
 * `oracle-write-rejects <M>`       -> theorem `write_rejects_iff` (every set): `write` fails iff `writeOk` is false
 * `oracle-read-wf <n> <text>`      -> theorem `read_wf` (domain: `read` succeeds)
 * `oracle-read-counts <n> <text>`  -> theorem `read_counts` (domain: `read` succeeds)
-* `oracle-dup <n> <text> <m> <i> <j>` -> theorem `read_dup` (domain `dupAt`)
+* `oracle-dup <n> <text> <m> <i> <j>` -> theorem `read_dup` (domain `dupAt` on the body; positions count from the first line at indentation 0)
+* `oracle-toplevel-doc <n> <text>` -> theorem `read_toplevel_doc` (domain: `read` succeeds)
+* `oracle-header-ignored <n> <text> <text'> <k>` -> theorem `header_unknown_property_ignored_at` (domain: same header line, `ignoredAt`)
+* `oracle-header-bad <n> <text>`   -> theorem `read_header_bad` (domain `headerBad`)
+* `oracle-orphan-indent <n> <text> <k>` -> theorem `indented_after_ignored_toplevel_error_at` (domain `orphanAt`)
 -/
 
 open Driver Sexp Codec Tiny
@@ -72,13 +76,36 @@ def handleC03 (op : String) (args : List Sexp) : Option Ans :=
     pure (match read n t with
       | none => outOfDomain
       | some m =>
-        let kinds := lineKinds .field (textLines t).tail
+        let kinds := lineKinds .field (bodyPart (textLines t).tail)
         match [LineKind.cls, .fld, .mth, .par, .doc].find? (fun κ => countOf κ m.classes != kinds.count κ) with
-        | none => pass
+        | none => if docN m.doc == (headerDocLines (textLines t).tail).length then pass else verdict "topdoc"
         | some κ => verdict (kindTag κ))
   | "oracle-dup", [n, t, m, i, j] => do
     let n ← toNat? n; let t ← toJStr? t; let m ← toNat? m; let i ← toNat? i; let j ← toNat? j
-    pure (if !dupAt (textLines t).tail m i j then outOfDomain else
+    pure (if !dupAt (bodyPart (textLines t).tail) m i j then outOfDomain else
+      match read n t with
+      | none => pass
+      | some _ => verdict "accepted")
+  | "oracle-toplevel-doc", [n, t] => do
+    let n ← toNat? n; let t ← toJStr? t
+    pure (match read n t with
+      | none => outOfDomain
+      | some m =>
+        if m.doc != headerDoc (textLines t).tail then verdict "doc"
+        else if (headerPart (textLines t).tail).all (fun l => l.indent == 1) then pass else verdict "indent")
+  | "oracle-header-ignored", [n, t, t', k] => do
+    let n ← toNat? n; let t ← toJStr? t; let t' ← toJStr? t'; let k ← toNat? k
+    pure (if !((textLines t).head? == (textLines t').head? && ignoredAt (textLines t).tail (textLines t').tail k) then outOfDomain
+      else if read n t == read n t' then pass else verdict "differs")
+  | "oracle-header-bad", [n, t] => do
+    let n ← toNat? n; let t ← toJStr? t
+    pure (if !headerBad (textLines t).tail then outOfDomain else
+      match read n t with
+      | none => pass
+      | some _ => verdict "accepted")
+  | "oracle-orphan-indent", [n, t, k] => do
+    let n ← toNat? n; let t ← toJStr? t; let k ← toNat? k
+    pure (if !orphanAt (textLines t).tail k then outOfDomain else
       match read n t with
       | none => pass
       | some _ => verdict "accepted")
